@@ -3,7 +3,7 @@
    fixed-width words (bit patterns); write_data is the slab loop of volumeutils._write_data,
    read_data is array_from_file (order='F'), write_image / read_image the file layouts. *)
 From Coq Require Import ZArith List Bool Arith Lia.
-From NV Require Import Base.Bytes C01.Model C01.Lemmas.
+From NV Require Import Base.Bytes C01.Model C01.Tables C01.Lemmas.
 Import ListNotations.
 Open Scope nat_scope.
 
@@ -50,6 +50,30 @@ Proof.
   - now apply (route_roundtrip compress decompress H).
 Qed.
 Print Assumptions C01_route_independent.
+
+(* the "no scaling" decision (ArrayWriter / SlopeArrayWriter / SlopeInterArrayWriter.scaling_needed over
+   the regenerated np.can_cast matrix): when it is false the writer's parameters are slope 1 and
+   intercept 0; for integer-like memory and on-disk types the data range fits the target, the
+   int->int clip of array_to_file is the identity on the data and the branch taken is a cast; and
+   float data go to an integer type unscaled only if empty, all zero, or (slope writers) without any
+   finite value *)
+Theorem C01_no_scaling_decision : forall c m d i,
+  scaling_needed can_cast_table c m d i = NoScale ->
+  writer_params can_cast_table c m d i = Some (1, 0)%Z
+  /\ (In m dtypes -> In d dtypes -> is_intlike m = true -> is_intlike d = true -> info_ok m i ->
+      size0 i = false -> nofinite i = false ->
+      (int_min d <= imn i)%Z /\ (imx i <= int_max d)%Z
+      /\ (forall v, (imn i <= v <= imx i)%Z -> clip_cast m d v = v)
+      /\ (write_route can_cast_table m d = RDirect \/ write_route can_cast_table m d = RClipCast))
+  /\ (dt_kind m = DFloat -> is_intlike d = true ->
+      mem_pair (dt_id m) (dt_id d) can_cast_table = true \/ size0 i = true \/ allzero i = true
+      \/ (c <> WPlain /\ nofinite i = true)).
+Proof.
+  intros c m d i H. split; [now apply no_scaling_params|]. split.
+  - intros. now apply (no_scaling_int_fits c m d i).
+  - intros. now apply (no_scaling_float_to_int c m d i).
+Qed.
+Print Assumptions C01_no_scaling_decision.
 
 (* MGH: shapes of rank < 3 are padded with ones to 3-D (same elements, same bytes: finding S-C01a is
    the shape change only), rank 3 and 4 kept, rank > 4 and 4-D with a last axis of 1 refused *)
